@@ -343,9 +343,9 @@ Qed.
 Theorem pow_unspecified a b : as_i64 b = None -> npow a b = Unspec.
 Proof. intros H. unfold npow. rewrite H. reflexivity. Qed.
 
-(* the documentation of std.number.pow promises exactness for exponents up to 2^64-1; the code
-   (and so the model) leaves the exact path at 2^63 *)
-Lemma pow_doc_range_refuted :
+(* the exact path ends at 2^63 - 1: exponents that only fit u64 go through f64 (the documentation
+   of std.number.pow used to promise exactness up to 2^64-1; corrected in 9fa35f3) *)
+Lemma pow_beyond_i64_unspecified :
   exists a n, (- 2 ^ 63 <= n <= 2 ^ 64 - 1)%Z /\ npow a (inject_Z n) = Unspec.
 Proof. exists (-(1))%Q, (2 ^ 63 + 1)%Z. split; [lia|]. vm_compute. reflexivity. Qed.
 
